@@ -1,4 +1,290 @@
 package main
 
-// registerCLIIntrinsics: stubs for the C16 harnesses (package main): urfave/cli context getters, gtree entry points, os.Open.
-func (e *Engine) registerCLIIntrinsics() {}
+import (
+	"fmt"
+	"go/types"
+	"strings"
+
+	"golang.org/x/tools/go/ssa"
+)
+
+// Stubs for the C16 harnesses (package main of cmd/gtree).
+//   * urfave/cli: (*cli.Context) getters return symbolic flag values memoised by flag name; (*cli.App).Run is
+//     replaced by its exit-coder contract (see harness/main/c16.go); cli.Exit / exitError are the real code.
+//   * gtree.OutputFromMarkdown / MkdirFromMarkdown / VerifyFromMarkdown: recording stubs. The options they receive
+//     are applied by the REAL gtree.newConfig and the resulting configuration, the writer and the reader are
+//     rendered into a call record the harness compares with what the flags denote; the result is nil or a fresh error.
+//   * os.Open: succeeds or fails (symbolic); os.Stdin/Stdout/Stderr and color.Output are named host files.
+//   * os.Exit records the status and ends the path.
+
+type exitPanic struct{ code Value }
+
+type namedFile struct{ name string }
+
+func (r *Run) cliFlag(kind, name string, mk func() Value) Value {
+	k := "flag:" + kind + ":" + name
+	if v, ok := r.cliVals[k]; ok {
+		return v
+	}
+	v := mk()
+	if r.cliVals == nil {
+		r.cliVals = map[string]Value{}
+	}
+	r.cliVals[k] = v
+	return v
+}
+
+func fileNameOf(v Value) string {
+	i, ok := v.(Iface)
+	if !ok {
+		return "?"
+	}
+	if i.T == nil {
+		return "nil"
+	}
+	p, ok := i.V.(Ptr)
+	if !ok || p == nil {
+		return "?"
+	}
+	if nf, ok := (*p).(*namedFile); ok {
+		return nf.name
+	}
+	return "other"
+}
+
+func (e *Engine) registerCLIIntrinsics() {
+	in := e.intrinsics
+	const CLI = "github.com/urfave/cli/v2"
+	const G = "github.com/ddddddO/gtree"
+	flagName := func(a []Value) string { return a[1].(StrV).concrete() }
+	in["(*"+CLI+".Context).Bool"] = func(r *Run, fr *frame, a []Value) Value {
+		n := flagName(a)
+		return r.cliFlag("bool", n, func() Value { return BoolV{C: r.branch(r.fresh("b_flag_"+sanitize(n), sortBool))} })
+	}
+	in["(*"+CLI+".Context).String"] = func(r *Run, fr *frame, a []Value) Value {
+		n := flagName(a)
+		return r.cliFlag("string", n, func() Value {
+			t := r.fresh("s_flag_"+sanitize(n), sortStr)
+			r.pc = append(r.pc, mkNot(mk("str.contains", sortBool, t, mkStrLit("\n"))))
+			return StrV{Segs: []Seg{{Atom: t}}}
+		})
+	}
+	in["(*"+CLI+".Context).Path"] = in["(*"+CLI+".Context).String"]
+	in["(*"+CLI+".Context).Duration"] = func(r *Run, fr *frame, a []Value) Value {
+		n := flagName(a)
+		return r.cliFlag("duration", n, func() Value { return IntV{S: r.fresh("u_flag_"+sanitize(n), bv(64))} })
+	}
+	in["(*"+CLI+".Context).StringSlice"] = func(r *Run, fr *frame, a []Value) Value {
+		n := flagName(a)
+		return r.cliFlag("slice", n, func() Value {
+			x := r.fresh("c_flagn_"+sanitize(n), bv(64))
+			k := 2
+			for v := 0; v < 2; v++ {
+				if r.branch(mkEq(x, mkBV(uint64(v), 64))) {
+					k = v
+					break
+				}
+			}
+			if k == 0 {
+				return SliceV{Nil: true}
+			}
+			var data []Value
+			for i := 0; i < k; i++ {
+				t := r.fresh("s_flagv_"+sanitize(n), sortStr)
+				r.pc = append(r.pc, mkNot(mk("str.contains", sortBool, t, mkStrLit("\n"))))
+				data = append(data, StrV{Segs: []Seg{{Atom: t}}})
+			}
+			return SliceV{Data: data}
+		})
+	}
+	in["(*"+CLI+".Context).NArg"] = func(r *Run, fr *frame, a []Value) Value {
+		return r.cliFlag("narg", "", func() Value { return IntV{S: r.fresh("u_narg", bv(64))} })
+	}
+	// library entry points: recording stubs
+	lib := func(op string, hasWriter bool) intrinsicFn {
+		return func(r *Run, fr *frame, a []Value) Value {
+			wname := "-"
+			i := 0
+			if hasWriter {
+				wname = fileNameOf(a[0])
+				i = 1
+			}
+			rname := fileNameOf(a[i])
+			opts := a[i+1]
+			gp := r.eng.prog.ImportedPackage(G)
+			cfgp := r.callFunc(fr, gp.Func("newConfig"), []Value{opts}, nil).(Ptr)
+			cfg := (*cfgp).(Struct)
+			ct := gp.Type("config").Type()
+			fld := func(name string) Value { return cfg[fieldIndex(ct, name)] }
+			b := func(name string) string {
+				v := fld(name).(BoolV)
+				if v.S != nil {
+					panic(unsupported("symbolic config field %s", name))
+				}
+				return fmt.Sprint(v.C)
+			}
+			rec := strLit(fmt.Sprintf("%s(w=%s,r=%s,massive=%s,encode=%d,dryrun=%s,strict=%s,ctx=%s,ext=[", op, wname, rname, b("massive"),
+				int64(fld("encode").(IntV).C), b("dryrun"), b("strictVerify"), ctxKind(fld("ctx"))))
+			if sl, ok := fld("fileExtensions").(SliceV); ok {
+				for j, x := range sl.Data {
+					if j > 0 {
+						rec = concatStr(rec, strLit(","))
+					}
+					rec = concatStr(rec, x.(StrV))
+				}
+			}
+			rec = concatStr(rec, strLit("],target="))
+			rec = concatStr(rec, fld("targetDir").(StrV))
+			rec = concatStr(rec, strLit(")\n"))
+			r.cliCalls = concatStr(r.cliCalls, rec)
+			// result: nil or a fresh error
+			r.cliLibFailed = false
+			if r.branch(r.fresh("b_libfails", sortBool)) {
+				r.cliLibFailed = true
+				return r.callFunc(fr, r.eng.prog.ImportedPackage("errors").Func("New"), []Value{strLit("library failure")}, nil)
+			}
+			return Iface{}
+		}
+	}
+	in[G+".OutputFromMarkdown"] = lib("output", true)
+	in[G+".MkdirFromMarkdown"] = lib("mkdir", false)
+	in[G+".VerifyFromMarkdown"] = lib("verify", false)
+	fileT := func(r *Run) types.Type {
+		return types.NewPointer(r.eng.prog.ImportedPackage("os").Type("File").Type())
+	}
+	in["os.Open"] = func(r *Run, fr *frame, a []Value) Value {
+		if r.branch(r.fresh("b_openfails", sortBool)) {
+			e := r.callFunc(fr, r.eng.prog.ImportedPackage("errors").Func("New"), []Value{strLit("open failure")}, nil)
+			return Tuple{Ptr(nil), e}
+		}
+		slot := new(Value)
+		*slot = &namedFile{name: "file"}
+		return Tuple{Ptr(slot), Iface{}}
+	}
+	in["(*os.File).Close"] = func(r *Run, fr *frame, a []Value) Value { return Iface{} }
+	in["os.Exit"] = func(r *Run, fr *frame, a []Value) Value { panic(exitPanic{a[0]}) }
+	in["context.WithTimeout"] = func(r *Run, fr *frame, a []Value) Value {
+		parent := a[0].(Iface).V.(*ctxObj)
+		c := &ctxObj{r: r, done: &ChanV{}, tag: "timeout"}
+		parent.children = append(parent.children, c)
+		cancel := &hostFunc{name: "cancel", f: func(r *Run, fr *frame, a []Value) Value { return nil }}
+		return Tuple{Iface{T: r.eng.prog.ImportedPackage("context").Type("Context").Type(), V: c}, cancel}
+	}
+	in["(*github.com/fatih/color.Color).SprintFunc"] = func(r *Run, fr *frame, a []Value) Value {
+		return &hostFunc{name: "color.SprintFunc", f: func(r *Run, fr *frame, a []Value) Value {
+			s := StrV{}
+			for _, e := range a[0].(SliceV).Data {
+				sv, ok := e.(Iface).V.(StrV)
+				if !ok {
+					panic(unsupported("SprintFunc of non-string"))
+				}
+				s = concatStr(s, sv)
+			}
+			return s
+		}}
+	}
+	// (*cli.App).Run by contract: nil, or a non-ExitCoder error (ExitCoder errors never come back: the library
+	// turns them into os.Exit(code) itself)
+	in["(*"+CLI+".App).Run"] = func(r *Run, fr *frame, a []Value) Value {
+		r.cliRunFailed = false
+		if r.branch(r.fresh("b_runfails", sortBool)) {
+			r.cliRunFailed = true
+			return r.callFunc(fr, r.eng.prog.ImportedPackage("errors").Func("New"), []Value{strLit("usage error")}, nil)
+		}
+		return Iface{}
+	}
+	// errors.As for a pointer-to-interface target: first error of the Unwrap chain whose type implements it
+	in["errors.As"] = func(r *Run, fr *frame, a []Value) Value {
+		tgt := a[1].(Iface)
+		pt, ok := tgt.T.Underlying().(*types.Pointer)
+		if !ok {
+			panic(unsupported("errors.As target %v", tgt.T))
+		}
+		it, ok := pt.Elem().Underlying().(*types.Interface)
+		if !ok {
+			panic(unsupported("errors.As with a non-interface target"))
+		}
+		cur := a[0].(Iface)
+		for i := 0; i < 16 && cur.T != nil; i++ {
+			if _, host := cur.V.(hostObj); !host && types.Implements(cur.T, it) {
+				store(tgt.V.(Ptr), cur)
+				return BoolV{C: true}
+			}
+			m := r.eng.prog.LookupMethod(cur.T, nil, "Unwrap")
+			if m == nil || m.Signature.Results().Len() != 1 {
+				break
+			}
+			nx, ok := r.callFunc(fr, m, []Value{cur.V}, nil).(Iface)
+			if !ok {
+				break
+			}
+			cur = nx
+		}
+		return BoolV{C: false}
+	}
+	for _, p := range harnessPkgs {
+		in[p+"verifLibFailed"] = func(r *Run, fr *frame, a []Value) Value { return BoolV{C: r.cliLibFailed} }
+		in[p+"verifRunFailed"] = func(r *Run, fr *frame, a []Value) Value { return BoolV{C: r.cliRunFailed} }
+		in[p+"verifCalls"] = func(r *Run, fr *frame, a []Value) Value { return r.cliCalls }
+		in[p+"verifStdFiles"] = func(r *Run, fr *frame, a []Value) Value {
+			// installs named host files as os.Stdin/Stdout/Stderr and color.Output
+			set := func(pkg, name, tag string) {
+				g := r.eng.prog.ImportedPackage(pkg).Var(name)
+				slot := new(Value)
+				*slot = &namedFile{name: tag}
+				var v Value = Ptr(slot)
+				if pkg != "os" {
+					v = Iface{T: fileT(r), V: Ptr(slot)}
+				}
+				*r.global(g) = v
+				if r.gwritten == nil {
+					r.gwritten = map[*ssa.Global]bool{}
+				}
+				r.gwritten[g] = true
+			}
+			ag := r.eng.prog.ImportedPackage("os").Var("Args")
+			*r.global(ag) = SliceV{Data: []Value{strLit("gtree")}}
+			if r.gwritten == nil {
+				r.gwritten = map[*ssa.Global]bool{}
+			}
+			r.gwritten[ag] = true
+			set("os", "Stdin", "stdin")
+			set("os", "Stdout", "stdout")
+			set("os", "Stderr", "stderr")
+			set("github.com/fatih/color", "Output", "color.Output")
+			return nil
+		}
+		// verifExitCode(f): runs f and returns the status passed to os.Exit, or -1 if f returned normally
+		in[p+"verifExitCode"] = func(r *Run, fr *frame, a []Value) (res Value) {
+			defer func() {
+				if p := recover(); p != nil {
+					if ep, ok := p.(exitPanic); ok {
+						res = ep.code
+						return
+					}
+					panic(p)
+				}
+			}()
+			r.call(fr, a[0], nil)
+			return IntV{C: ^uint64(0)}
+		}
+	}
+}
+
+func ctxKind(v Value) string {
+	i, ok := v.(Iface)
+	if !ok || i.T == nil {
+		return "nil"
+	}
+	if c, ok := i.V.(*ctxObj); ok {
+		if c.tag != "" {
+			return c.tag
+		}
+		return "background"
+	}
+	return "other"
+}
+
+func sanitize(s string) string {
+	return strings.NewReplacer("-", "_", " ", "_").Replace(s)
+}
